@@ -21,7 +21,7 @@ import mem_tie
 CORPUS = os.path.join(vplib.VERIF, "corpus", "C12")
 
 # ops that are several library calls in the harness: never the op under test
-COMPOSITE = {"pdig", "ddig", "cgets", "dfminmax", "dgetprec", "pcopysub"}
+COMPOSITE = {"pdig", "ddig", "cgets", "dfminmax", "dgetprec", "pcopysub"} | mem_gen.ALIAS_COMPOSITE
 
 SOL1 = ["nsr 0 1 1 0 0 2 1 -1 0", "nsr 0 1 1 0 0 1 1 1 0", "nsr 0 1 1 0 0 0 1 0 0"]
 SOLT2 = ["nsr 0 2 2 0 0 %d %d %s 0" % (s, p, g) for p in (1, 2) for s, g in ((2, "-1"), (1, "1"), (0, "0"))] + ["nthru 0 2 2 0 0 1 2"]
@@ -68,6 +68,24 @@ DIRECTED = {
                             SOL1 + [s.replace("nsr 0", "nsr 1") for s in SOL1] +
                             ["nsr 0 1 1 0 0 4 1 0.5 0.3", "nsr 1 1 1 0 0 4 1 0.5 0.3", "nsolve 0", "nsolve 1", "cpval 0 4 1.5e9", "nsolve 0", "cpval 0 4 1.5e9",
                              "caddcal 0 cal0 0", "nfree 0", "cpdel 0 4", "cpdel 0 3", "nsolve 1", "nfree 1", "cfree 0"],
+    # ---- self-aliasing family (checks/C03.py, docs/design_C03.md): the pointer a getter returns handed to a mutator of the same object, every
+    # allocation of the mutator failing once.  vnacal_save to the name the object reports (D70: a failed strdup must keep the old name)
+    "cal_save_own_filename": ["ccreate 0 1", "nalloc 0 0 0 1 1 2", "nsetfv 0 0"] + SOL1 + ["nsolve 0", "caddcal 0 cal0 0", "csave 0 0", "casave 0 0", "cload 1 0 1", "casave 1 1",
+                              "cgets 1 0", "casave 0 1", "cfree 1", "caload 1 0 0", "cgets 0 0"],
+    "alias_prop": ["pset 0 a.b=hello", "pset 0 a.c=world", "pset 0 k=v", "pset 0 y={a:%20[1,%202]}", "paset 0 0 k k %00", "paset 0 0 k k _a_longer_suffix_so_that_the_value_is_reallocated",
+                   "paset 0 0 a.b l[+] %00", "pacopy 1 0 a", "pacopy 0 0 a", "pset 0 y={a:%20[1,%202]}", "paimports 0 0 y 1", "pdig 0", "pdig 1"],
+    "alias_data": ["dalloc 0 1", "dinit 0 1 2 2 3", "dsetfv 0 0", "dsetm 0 0 1.5", "dsetfmt 0 Sri,Zma", "dasetfmt 0 0", "dasetfv 0 0", "dasetm 0 1 0 0", "dasetv 0 0 1 0 1", "dasetz0v 0 0 0 0",
+                   "dsetft 0 3", "dasavefmt 0 0 1", "dasetfz0v 0 1 0 0 0", "dasetfz0v 0 2 0 1 1", "dasetz0v 0 0 1 2", "ddig 0"],
+    "alias_cal": ["ccreate 0 1", "nalloc 0 0 0 1 1 2", "nsetfv 0 0"] + SOL1 + ["nsolve 0", "caddcal 0 cal0 0", "cpset 0 0 k=v", "capset 0 0 0 0 k k _suffix", "capset 0 -1 0 0 k g.y %00",
+                  "capexport 0 0 . 1", "cafind 0 0 0", "nsolve 0", "caaddcal 0 0 0 0", "cavector 0 0 0", "cacorr 0 0 0 3", "nalloc 1 0 0 1 1 2", "nasetfv 1 0 0", "namerr 1 0 0",
+                  "dalloc 0 1", "caapply 0 0 1 0 1 1 0 0 0", "dinit 0 1 1 1 2", "dsetfv 0 0", "caapply 0 0 0 0 1 1 1 0 0", "cgets 0 0", "pdig 1"],
+    # ---- neighbourhoods of D68 / D69: zero frequencies with an unknown and a correlated parameter through add / solve / add_calibration / apply / save;
+    # the TRL path (2x2 T8, three standards, two unknowns), well formed and with partial S matrices
+    "cal_zero_freq_unknown": ["ccreate 0 1", "cscalar 0 0.45 0.25", "cunknown 0 3", "ccorr 0 4 1 1", "nalloc 0 0 8 1 1 0", "nsetfv 0 0"] + SOL1 +
+                             ["nsr 0 1 1 0 0 4 1 0.5 0.3", "nsr 0 1 1 0 0 5 1 0.5 0.3", "nsolve 0", "caddcal 0 cal0 0", "dalloc 0 1", "capply 0 0 0 0 1 1 0 0", "csave 0 0", "cload 1 0 1", "cend 1 0"],
+    "cal_trl": ["ccreate 0 1", "cscalar 0 -0.9 0.1", "cunknown 0 3", "cscalar 0 0 -0.8", "cunknown 0 5", "nalloc 0 0 0 2 2 1", "nsetfv 0 0", "nthru 0 2 2 0 0 1 2",
+                "nline 0 2 2 0 0 4 0 0 4 1 2 0 -0.6 0 0 -0.6", "nline 0 2 2 0 0 0 6 6 0 1 2 0 0 0.7 0.7 0", "nsolve 0", "cpval 0 4 1e9", "caddcal 0 cal0 0",
+                "nalloc 1 0 0 2 2 1", "nsetfv 1 0", "nsr 1 2 2 0 0 4 2 -1 0", "nsr 1 2 2 0 0 6 1 1 0", "nthru 1 2 2 0 0 1 2", "nsolve 1", "cgets 0 0"],
 }
 
 
